@@ -186,6 +186,8 @@ def _run_harness(hn, tier, seed, findings):
             out["dropped"][k] = sorted(set(out["dropped"][k]) | v)
         out["paths"] += s.paths
     out["models_used"] = sorted(models.USED)
+    if not obs and not out["undecided"] and not out["error"]:
+        out["error"] = f"vacuous harness: {hn.name} generated zero obligations (every path raised or was cut before a post-condition)"
     timeout = vc.QUICK_TIMEOUT_MS if tier == "quick" else 180000
     # vacuity: covers
     for cid, hyps in h.covers:
